@@ -1,0 +1,32 @@
+//go:build verif
+// +build verif
+
+package seqio
+
+import "github.com/go-pars/pars"
+
+// Verification hooks (build tag `verif` only): exported handles on the two
+// ORIGIN reading paths and the two length functions, so a monitor can drive
+// the fast validator and the slow line-by-line parser on the same block.
+
+// VerifToOriginLength is toOriginLength.
+func VerifToOriginLength(length int) int { return toOriginLength(length) }
+
+// VerifFromOriginLength is fromOriginLength.
+func VerifFromOriginLength(length int) int { return fromOriginLength(length) }
+
+// VerifValidateOrigin runs the fast-path validator on a block.
+func VerifValidateOrigin(p []byte, length int) error {
+	return validateOrigin(p, length, pars.Position{})
+}
+
+// VerifSlowOrigin runs the slow line-by-line ORIGIN parser on a block and
+// returns the normalised (LF) block it produces.
+func VerifSlowOrigin(p []byte, length int) ([]byte, error) {
+	state := pars.FromBytes(p)
+	result := pars.Result{}
+	if err := slowGenBankOriginParser(length)(state, &result); err != nil {
+		return nil, err
+	}
+	return result.Token, nil
+}
